@@ -421,15 +421,21 @@ def mapspec_dimensions(mapspecs: list[MapSpec]) -> dict[str, int]:
     }
 
 
-def mapspec_axes(mapspecs: list[MapSpec]) -> dict[str, tuple[str, ...]]:
-    """Return the axes for each array parameter in the pipeline."""
+def mapspec_axes(mapspecs: list[MapSpec]) -> dict[str, tuple[str | None, ...]]:
+    """Return the axes for each array parameter in the pipeline.
+
+    The tuple has one entry per array dimension; a dimension that is only
+    ever used with ``:`` has no name and is reported as ``None``.
+    """
     axes: dict[str, dict[int, str]] = defaultdict(dict)
+    ranks: dict[str, int] = {}
     for mapspec in mapspecs:
         for arrayspec in itertools.chain(mapspec.inputs, mapspec.outputs):
+            ranks[arrayspec.name] = max(ranks.get(arrayspec.name, 0), len(arrayspec.axes))
             for i, axis in enumerate(arrayspec.axes):
                 if axis is not None:
                     axes[arrayspec.name][i] = axis
-    return {name: tuple(dct[i] for i in range(len(dct))) for name, dct in axes.items()}
+    return {name: tuple(axes[name].get(i) for i in range(rank)) for name, rank in ranks.items()}
 
 
 def _validate_shapes(
